@@ -7,6 +7,7 @@ from typing import Any
 
 import numpy as np
 
+from .model import AnalysisError
 from .interp import NOT_HANDLED, TOP, Ext, SliceV, register_host_type, to_host_index
 from .nphooks import np_name
 
@@ -95,6 +96,8 @@ def call_numpy(func, args: list, kwargs: dict) -> Any:
             return any(bad(y, d + 1) for y in x)
         return False
     if any(bad(a) for a in args) or any(bad(v) for v in kwargs.values()):
+        if kwargs.get('out') is not None:
+            raise AnalysisError('engine', f'numpy.{name}', 'out= array written by a call with an unknown operand')
         return TOP
     kw = {k: to_host_index(v) for k, v in kwargs.items()}
     conv = [to_host_index(a) for a in args]
@@ -146,10 +149,15 @@ class _DataView:
 
     __imod__ = __mod__
 
-    def __eq__(self, o):
+    def _values(self):
         a = self.owner.a
-        nz = a[_nonzero_mask(a)]
-        return np.array([x == o for x in nz], dtype=bool)
+        return [a[r, c] for r, c in self.owner.entries()]
+
+    def __eq__(self, o):
+        return np.array([x == o for x in self._values()], dtype=bool)
+
+    def __len__(self):
+        return len(self._values())
 
     __hash__ = None
 
@@ -172,17 +180,51 @@ def _is_zero(x) -> bool:
 
 class MiniCSR:
     """Tiny stand-in for scipy.sparse.csr_matrix / dok_matrix over a dense 2-D
-    numpy array (numeric or symbolic object entries)."""
+    numpy array (numeric or symbolic object entries).
 
-    def __init__(self, a):
+    The STORAGE is modelled as scipy defines it: `store` is the list of stored
+    (row, col) entries in storage order - None for the canonical form (non-zero
+    entries, sorted).  `.indices`, `.data`, `.nnz`, `getnnz` talk about storage
+    (explicit zeros count, order as stored); `nonzero()`, `toarray()`, slicing
+    and arithmetic talk about values.  `data %= m` keeps the stored entries
+    (so it leaves explicit zeros behind), `a + b` and `dot` return canonical
+    matrices (scipy's binary operations drop zero results).
+    """
+
+    def __init__(self, a, store=None):
         a = np.array(a) if not isinstance(a, np.ndarray) else a
         if a.ndim == 1:
             a = a.reshape(1, -1)
         self.a = a
+        self.store = None if store is None else [(int(r), int(c)) for r, c in store]
 
     @staticmethod
     def zeros(shape, dtype=int):
         return MiniCSR(np.zeros(shape, dtype=dtype))
+
+    def entries(self):
+        if self.store is not None:
+            return list(self.store)
+        r, c = np.nonzero(_nonzero_mask(self.a))
+        return list(zip(r.tolist(), c.tolist()))
+
+    def _mask(self):
+        """Boolean mask of stored entries (value non-zero or explicit zero)."""
+        m = np.zeros(self.a.shape, dtype=bool)
+        for r, c in self.entries():
+            m[r, c] = True
+        return m
+
+    def _derived(self, a, mask):
+        """Matrix with values `a`, storing (sorted) the entries of `mask`; canonical when that is just the non-zeros."""
+        a = np.array(a) if not isinstance(a, np.ndarray) else a
+        if a.ndim == 1:
+            a = a.reshape(1, -1)
+        mask = np.asarray(mask, dtype=bool).reshape(a.shape)
+        if (mask == _nonzero_mask(a)).all():
+            return MiniCSR(a)
+        r, c = np.nonzero(mask)
+        return MiniCSR(a, list(zip(r.tolist(), c.tolist())))
 
     @property
     def shape(self):
@@ -190,27 +232,45 @@ class MiniCSR:
 
     @property
     def T(self):
-        return MiniCSR(self.a.T)
+        return self._derived(self.a.T, self._mask().T)
 
     @property
     def data(self):
         return _DataView(self)
 
+    @property
+    def nnz(self):
+        return len(self.entries())
+
     def pqv_setattr(self, name, value):
         if name == 'data' and isinstance(value, _DataView) and value.owner is self and value.mod:
+            ent = self.entries()
             self.a = self.a % value.mod
+            canon = MiniCSR(self.a).entries()
+            self.store = None if ent == canon else ent
             return
         raise AttributeError(name)
 
     @property
     def indices(self):
-        return np.nonzero(_nonzero_mask(self.a))[1]
+        return np.array([c for _, c in self.entries()], dtype=int)
 
     def nonzero(self):
-        return np.nonzero(_nonzero_mask(self.a))
+        nz = _nonzero_mask(self.a)
+        ent = [(r, c) for r, c in self.entries() if nz[r, c]]
+        return (np.array([r for r, _ in ent], dtype=int), np.array([c for _, c in ent], dtype=int))
 
     def getnnz(self, axis=None):
-        return _nonzero_mask(self.a).sum(axis=axis)
+        return self._mask().sum(axis=axis)
+
+    def eliminate_zeros(self):
+        nz = _nonzero_mask(self.a)
+        if self.store is not None:
+            self.store = [(r, c) for r, c in self.store if nz[r, c]]
+
+    def sort_indices(self):
+        if self.store is not None:
+            self.store = sorted(self.store)
 
     def dot(self, o):
         ob = o.a if isinstance(o, MiniCSR) else o
@@ -222,21 +282,37 @@ class MiniCSR:
     def __getitem__(self, idx):
         r = self.a[idx]
         if isinstance(r, np.ndarray):
+            mk = self._mask()[idx]
+            pos = np.arange(self.a.size).reshape(self.a.shape)[idx]
             if r.ndim == 1:
                 # row or column selection keeps 2-D like scipy
                 if isinstance(idx, tuple) and len(idx) == 2 and isinstance(idx[1], (int, np.integer)):
-                    r = r.reshape(-1, 1)
+                    r, mk, pos = r.reshape(-1, 1), mk.reshape(-1, 1), pos.reshape(-1, 1)
                 else:
-                    r = r.reshape(1, -1)
-            return MiniCSR(r)
+                    r, mk, pos = r.reshape(1, -1), mk.reshape(1, -1), pos.reshape(1, -1)
+            d = self._derived(r, mk)
+            if self.store is not None and d.store is not None or (self.store is not None and self.store != sorted(self.store)):
+                # keep the storage order of the surviving entries within each row
+                ncol = self.a.shape[1]
+                rank = {rr * ncol + cc: k for k, (rr, cc) in enumerate(self.store)}
+                ent = [(i, j) for i, j in zip(*np.nonzero(mk))]
+                ent.sort(key=lambda e: (e[0], rank.get(int(pos[e]), 0)))
+                d.store = [(int(i), int(j)) for i, j in ent]
+                if d.store == MiniCSR(d.a).entries():
+                    d.store = None
+            return d
         return r
 
     def __setitem__(self, idx, v):
+        mk = self._mask()
         self.a[idx] = v
+        mk[idx] = True
+        d = self._derived(self.a, mk & (_nonzero_mask(self.a) | mk))
+        self.store = d.store
 
     def __iter__(self):
         for i in range(self.a.shape[0]):
-            yield MiniCSR(self.a[i:i + 1])
+            yield self[i:i + 1]
 
     def __len__(self):
         return self.a.shape[0]
@@ -250,7 +326,7 @@ class MiniCSR:
         return self
 
     def copy(self):
-        return MiniCSR(np.array(self.a))
+        return MiniCSR(np.array(self.a), self.store)
 
     def astype(self, *a, **k):
         return self
@@ -263,7 +339,7 @@ class MiniCSR:
         return False
 
     def __repr__(self):
-        return f'MiniCSR({self.a.tolist()!r})'
+        return f'MiniCSR({self.a.tolist()!r}' + (f', store={self.store!r})' if self.store is not None else ')')
 
 
 register_host_type(MiniCSR)
